@@ -14,6 +14,7 @@
 #include <memory>
 #include <unistd.h>
 #include <fcntl.h>
+#include <sys/resource.h>
 #include <set>
 #include <functional>
 
@@ -628,6 +629,47 @@ void largeFileCase(Ctx& ctx)
 }
 
 // ------------------------------------------------------------------------------------------------
+// (b'') many repetitions on one archive object: streams, slices and copies are independent objects that can be dropped; thousands
+// of them in a row (more than the process may hold open at once) must keep working and keep delivering the member bytes
+// ------------------------------------------------------------------------------------------------
+void repetitionsCase(Ctx& ctx)
+{
+	std::string dir = ctx.freshDir("c13rep");
+	std::string in = dir + "/in"; mc::makeDir(in);
+	rlimit before; ::getrlimit(RLIMIT_NOFILE, &before);
+	rlimit few = before; few.rlim_cur = std::min<rlim_t>(before.rlim_cur, 256); ::setrlimit(RLIMIT_NOFILE, &few);   // at most 256 files open at once
+	std::vector<std::vector<uint8_t>> payloads = { pattern(5, 0x40), pattern(9, 0x60) };
+	mc::writeFile(in + "/aa.txt", payloads[0]); mc::writeFile(in + "/bb.bin", payloads[1]);
+	for (int i = 0; i < 2; ++i) { ref::WavSpec w; w.data = payloads[std::size_t(i)]; mc::writeFile(in + (i ? "/bb.wav" : "/aa.wav"), ref::encodeWav(w)); }
+	auto o = mc::guarded([&] {
+		Archive::VolFile::CreateArchive(dir + "/a.vol", { in + "/aa.txt", in + "/bb.bin" });
+		Archive::ClmFile::CreateArchive(dir + "/a.clm", { in + "/aa.wav", in + "/bb.wav" });
+		const int N = 3000;
+		for (int vol = 0; vol < 2; ++vol) {
+			std::unique_ptr<Archive::ArchiveFile> a;
+			if (vol) a = std::make_unique<Archive::VolFile>(dir + "/a.vol"); else a = std::make_unique<Archive::ClmFile>(dir + "/a.clm");
+			for (int k = 0; k < N; ++k) {
+				std::size_t i = std::size_t(k % 2);
+				auto st = a->OpenStream(i);
+				std::string d = readAll(*st);
+				if (d != std::string(payloads[i].begin(), payloads[i].end())) throw std::runtime_error(std::string(vol ? "vol" : "clm") + ": OpenStream number " + std::to_string(k) + " delivered other bytes");
+				if (k % 3 == 0) { auto* fs = dynamic_cast<Stream::FileSliceReader*>(st.get()); if (fs) { Stream::FileSliceReader copy(*fs); auto sub = copy.Slice(1, 2); uint8_t b = 0; sub.Read(&b, 1); if (b != payloads[i][1]) throw std::runtime_error("slice of a copy of stream number " + std::to_string(k)); } }
+				if (k % 10 == 0) { a->ExtractFile(i, dir + "/x.out"); }
+				ctx.transition();
+			}
+			for (int k = 0; k < N / 3; ++k) { std::unique_ptr<Archive::ArchiveFile> again; if (vol) again = std::make_unique<Archive::VolFile>(dir + "/a.vol"); else again = std::make_unique<Archive::ClmFile>(dir + "/a.clm"); if (again->GetCount() != 2) throw std::runtime_error("reopened archive number " + std::to_string(k)); }
+			ctx.count("repetitions/archives");
+		}
+		Stream::FileReader fr(dir + "/a.vol");
+		for (int k = 0; k < N; ++k) { auto sl = fr.Slice(0, 4); char t[4]; sl.Read(t, 4); if (std::string(t, 4) != "VOL ") throw std::runtime_error("slice number " + std::to_string(k) + " of one FileReader"); }
+	});
+	::setrlimit(RLIMIT_NOFILE, &before);
+	if (o.cls != 'R') ctx.violation("C13/repetitions/later-streams-fail-or-differ", "3000 streams, copies, slices and extractions in a row on one archive object", o.what);
+	ctx.state(); ctx.trace();
+	mc::removeTree(dir);
+}
+
+// ------------------------------------------------------------------------------------------------
 // (c) backend equivalence: the same in-bounds history on five backends, observations identical
 // ------------------------------------------------------------------------------------------------
 struct EqOp { int kind; uint64_t a; };
@@ -742,14 +784,15 @@ void equivCase(std::size_t which, Ctx& ctx)
 	mc::removeTree(dir);
 }
 
-std::size_t kGrid = 12; const std::size_t kJoint = 6, kEquiv = 4, kLarge = 1;
+std::size_t kGrid = 12; const std::size_t kJoint = 6, kEquiv = 4, kLarge = 2;
 
 void runCase(std::size_t i, Ctx& ctx)
 {
 	if (i < kGrid) gridCase(i, ctx);
 	else if (i < kGrid + kJoint) jointCase(i - kGrid, ctx);
 	else if (i < kGrid + kJoint + kEquiv) equivCase(i - kGrid - kJoint, ctx);
-	else largeFileCase(ctx);
+	else if (i == kGrid + kJoint + kEquiv) largeFileCase(ctx);
+	else repetitionsCase(ctx);
 	if (peek::usedFallback()) ctx.count("binding/fallback-keys");
 }
 
@@ -762,7 +805,7 @@ int main(int argc, char** argv)
 	def.init = [](Ctx& c) { gGridLens = c.thorough ? 7 : 4; kGrid = 3 * gGridLens; };
 	def.ncases = [](Ctx&) { return kGrid + kJoint + kEquiv + kLarge; };
 	def.run = runCase;
-	def.describe = [](std::size_t i) { return i < kGrid ? "construction grid " + std::to_string(i) : i < kGrid + kJoint ? "interleaving " + std::to_string(i - kGrid) : i < kGrid + kJoint + kEquiv ? "equivalence " + std::to_string(i - kGrid - kJoint) : std::string("file larger than 4 GiB"); };
+	def.describe = [](std::size_t i) { return i < kGrid ? "construction grid " + std::to_string(i) : i < kGrid + kJoint ? "interleaving " + std::to_string(i - kGrid) : i < kGrid + kJoint + kEquiv ? "equivalence " + std::to_string(i - kGrid - kJoint) : i == kGrid + kJoint + kEquiv ? std::string("file larger than 4 GiB") : std::string("many repetitions on one archive"); };
 	def.caseTimeoutS = 600;
 	def.fsizeLimit = std::size_t(5) << 30;   // the sparse file of 4 GiB + 64 bytes
 	return mc::Main(argc, argv, def);
